@@ -41,19 +41,29 @@ IN, OUT, EDGE = "IN", "OUT", "EDGE"
 def classify(regions, x, y, margin):
     """IN: inside some region by more than margin; OUT: outside all by more than margin;
     EDGE otherwise.  margin == 0 means exact closed tests."""
-    if margin == 0:
-        for reg in regions:
-            if in_region(reg, x, y):
-                return IN
-        return OUT
     best = OUT
     for reg in regions:
+        m = margin
+        if m == 0:
+            if reg["type"] == "rect" or _dyadic(reg["cx"], reg["cy"], reg["r"], x, y):
+                # float comparisons are exact here: closed test, no band
+                if in_region(reg, x, y):
+                    return IN
+                continue
+            m = 1e-9
         d = signed_dist(reg, x, y)
-        if d < -margin:
+        if d < -m:
             return IN
-        if d <= margin:
+        if d <= m:
             best = EDGE
     return best
+
+
+def _dyadic(*vals):
+    for v in vals:
+        if abs(v) > 4096 or (v * 64.0) != int(v * 64.0):
+            return False
+    return True
 
 
 # ---------------------------------------------------------------- exact arithmetic (C17)
